@@ -225,6 +225,11 @@ def falsify(ctx, deep=False):
                     break
             pg_ = npr_.uniform(0.05, 1.0, size=n_ + 1) * 1e-13; pg_[0] *= rng.choice([1, 5, 20])
             inp.update({"kind": "gctm-ground", "h": hg_.tolist(), "h_int": False, "p": pg_.tolist(), "w": [10.0] * (n_ + 1), "L": L_, "og": False, "gctm": True})
+        if i == 7:
+            # a fixed altitude grid on which only a few bins carry turbulence: as many non-zero layers as groups asked for, or fewer
+            N_ = 16; Lg_ = rng.randint(3, 5); K_ = rng.randint(2, Lg_)
+            ps_ = numpy.zeros(N_); ps_[rng.nprng().choice(N_, size=K_, replace=False)] = rng.nprng().uniform(0.2, 1.0, size=K_) * 1e-13
+            inp.update({"kind": "sparse-grid", "h": (numpy.arange(N_) * 1000.0).tolist(), "h_int": False, "p": ps_.tolist(), "w": [10.0] * N_, "L": 2, "og": True, "Lg": Lg_, "R": 3, "gctm": False})
         if i in (1, 2):
             # moment-conserving method on a profile whose lowest layer is not at height 0 (heights above sea level)
             N = 12 + 3 * i
